@@ -154,6 +154,7 @@ type cursorInfo struct {
 	fields  map[*types.Struct]fieldCursor
 	forward bool // every update in every web is "+ positive constant"
 	other   []string
+	views   map[ssa.Value]bool // string registers that hold a moving suffix view (s = s[k:], s = TrimLeft(s, ...))
 }
 
 func derefStruct(t types.Type) *types.Struct {
@@ -295,6 +296,48 @@ func computeCursors(fns []*ssa.Function) *cursorInfo {
 				if !okFwd {
 					ci.forward = false
 					ci.other = append(ci.other, "cursor field stored from "+st.Val.String())
+				}
+			}
+		}
+	}
+	// suffix views: strings produced by s[k:] or by a trimming call, and the phis they flow into
+	ci.views = map[ssa.Value]bool{}
+	isStr := func(t types.Type) bool {
+		b, ok := t.Underlying().(*types.Basic)
+		return ok && b.Info()&types.IsString != 0
+	}
+	for changed := true; changed; {
+		changed = false
+		mark := func(v ssa.Value) {
+			if !ci.views[v] {
+				ci.views[v] = true
+				changed = true
+			}
+		}
+		for _, fn := range fns {
+			for _, b := range fn.Blocks {
+				for _, ins := range b.Instrs {
+					switch x := ins.(type) {
+					case *ssa.Slice:
+						if isStr(x.X.Type()) && x.High == nil {
+							mark(x)
+						}
+					case *ssa.Call:
+						if c := x.Call.StaticCallee(); c != nil && isStr(x.Type()) {
+							switch c.String() {
+							case "strings.TrimLeft", "strings.TrimPrefix", "strings.TrimLeftFunc":
+								mark(x)
+							}
+						}
+					case *ssa.Phi:
+						if isStr(x.Type()) {
+							for _, e := range x.Edges {
+								if ci.views[e] {
+									mark(x)
+								}
+							}
+						}
+					}
 				}
 			}
 		}
